@@ -47,6 +47,11 @@ def hasDup : List Nat → Bool
 def setAll {α : Type} (key : α → List Nat) (l : List α) (store : List α) : List α :=
   l.foldl (fun acc x => upsert key x acc) store
 
+/-- strictly increasing keys: the shape of a KV-store prefix scan (decidable; `Sorted` in SgeProofs is the Prop) -/
+def sortedB {α : Type} (key : α → List Nat) : List α → Bool
+  | [] => true
+  | x :: xs => xs.all (fun y => ltL (key x) (key y)) && sortedB key xs
+
 /-- first non-zero code of a list of checks -/
 def firstErr : List Nat → Nat
   | [] => 0
@@ -519,22 +524,27 @@ def importRewardRec (fixed : Bool) (st : RewardStores) (r : Reward) : RewardStor
   let st1 := { st with rewards := upsert (fun (x : Reward) => [x.uid]) r st.rewards }
   if fixed then countGrant st1 r else st1
 
-/-- the by-category loop: reward → its campaign → the campaign's promoter address → promoter uid; each lookup that
-    fails is a panic -/
+/-- the lookups of the by-category loop: reward → its campaign → the campaign's promoter address → promoter uid;
+    `none` = one of the three panics ("reward is not valid", "campaign is not valid", "promoter is not valid") -/
+def promoterOfReward (st : RewardStores) (rewardUid : Nat) : Option Nat :=
+  match st.rewards.find? (fun r => r.uid == rewardUid) with
+  | none => none
+  | some r =>
+    match st.campaigns.find? (fun c => c.uid == r.campaign) with
+    | none => none
+    | some c =>
+      match st.byAddress.find? (fun p => p.1 == c.promoter) with
+      | none => none
+      | some p => some p.2
+
 def importByCat (acc : Option RewardStores) (x : Nat × Nat × Nat) : Option RewardStores :=
   match acc with
   | none => none
   | some st =>
-    match st.rewards.find? (fun r => r.uid == x.2.2) with
-    | none => none                                   -- panic "reward is not valid"
-    | some r =>
-      match st.campaigns.find? (fun c => c.uid == r.campaign) with
-      | none => none                                 -- panic "campaign is not valid"
-      | some c =>
-        match st.byAddress.find? (fun p => p.1 == c.promoter) with
-        | none => none                               -- panic "promoter is not valid"
-        | some p =>
-          some { st with byCategory := upsert ByCat.key { promoterUid := p.2, receiver := x.1, category := x.2.1, uid := x.2.2 } st.byCategory }
+    match promoterOfReward st x.2.2 with
+    | none => none
+    | some pu =>
+      some { st with byCategory := upsert ByCat.key { promoterUid := pu, receiver := x.1, category := x.2.1, uid := x.2.2 } st.byCategory }
 
 /-- InitGenesis of x/reward on an empty store; `none` = panic -/
 def importReward (fixed : Bool) (g : RewardGen) : Option RewardStores :=
@@ -546,5 +556,69 @@ def importReward (fixed : Bool) (g : RewardGen) : Option RewardStores :=
   match g.byCategory.foldl importByCat (some st2) with
   | none => none
   | some st3 => some { st3 with byCampaign := setAll (fun (x : Nat × Nat) => [x.1, x.2]) g.byCampaign [] }
+
+-- =============================================================================================
+-- Invariants of reachable states that the C16 theorems assume (decidable; the driver evaluates them at every export
+-- point of every history, so a reachable state that violates one shows up as a correspondence difference)
+
+def marketInv (s : State) : Bool := sortedB Market.key s.markets
+
+/-- deposits and withdrawals are keyed stores; every withdrawal belongs to a deposit of the same depositor, market and
+    participation (a withdrawal is only ever created from its deposit) -/
+def houseInv (s : State) : Bool :=
+  sortedB Deposit.key s.deposits && sortedB Withdrawal.key s.withdrawals &&
+  s.withdrawals.all (withdrawalHasDeposit true s.deposits)
+
+def pendEntry (b : Bet) : Nat × Nat × Nat × Nat := (b.market, b.id, b.uid, b.creator)
+def settEntry (b : Bet) : Nat × Nat × Nat × Nat := (b.settleHeight, b.id, b.uid, b.creator)
+
+/-- the bet store is keyed by (creator, id); uids are unique, ids non-zero, the counter counts the bets; a settled bet
+    has a settlement height; the pending / settled stores are the two indexes of the bet store: a bet without
+    settlement height is indexed under (market, id), the others under (settlement height, id) -/
+def betInv (s : State) : Bool :=
+  sortedB Bet.key s.bets && !hasDup (s.bets.map (·.uid)) && s.bets.all (fun b => b.id != 0) &&
+  s.betCount == s.bets.length &&
+  s.bets.all (fun b => !(b.settleHeight == 0 && b.status == BS_SETTLED)) &&
+  s.pending == setAll pendKey ((s.bets.filter (fun b => b.settleHeight == 0)).map pendEntry) [] &&
+  s.settled == setAll pendKey ((s.bets.filter (fun b => b.settleHeight != 0)).map settEntry) [] &&
+  s.bets.all (fun b => s.pending.filter (fun x => x.2.2.1 == b.uid) == (if b.settleHeight == 0 then [pendEntry b] else [])) &&
+  s.bets.all (fun b => s.settled.filter (fun x => x.2.2.1 == b.uid) == (if b.settleHeight != 0 then [settEntry b] else [])) &&
+  s.pending.length + s.settled.length == s.bets.length
+
+/-- per book: the nested stores are keyed stores; the odds-exposure store has one entry per outcome (`OddsCount`);
+    once a book has a participation, every outcome has a participation exposure; every historical exposure belongs
+    to a (participation, outcome) that still has a current exposure -/
+def bookInv (b : Book) : Bool :=
+  sortedB (fun (q : Nat × List Nat) => [q.1]) b.queues && sortedB Part.key b.parts && sortedB PExp.key b.pexps &&
+  sortedB PExp.hkey b.hist && sortedB (fun (x : Nat × Nat) => [x.1, x.2]) b.pairs &&
+  b.queues.length == b.oddsCount &&
+  (b.partCount == 0 || b.queues.all (fun q => b.pexps.any (fun e => e.odds == q.1))) &&
+  (b.partCount != 0 || b.parts.isEmpty) &&
+  b.hist.all (fun h => b.pexps.any (fun e => e.odds == h.odds && e.idx == h.idx))
+
+def obInv (s : State) : Bool :=
+  sortedB Book.key s.books && s.books.all bookInv &&
+  -- every bet of a participation–bet pair is in the bet store, and bet ids are unique
+  !hasDup (s.bets.map (·.id)) &&
+  s.books.all (fun b => b.pairs.all (fun x => s.bets.any (fun t => t.id == x.2)))
+
+def sortedIds : List Ovm.Proposal → Bool
+  | [] => true
+  | p :: ps => ps.all (fun q => decide (p.id < q.id)) && sortedIds ps
+
+def ovmInv (s : Ovm.State) : Bool := sortedIds s.active && sortedIds s.finished
+
+/-- grant counters as the patched InitGenesis rebuilds them -/
+def rebuiltStats (st : RewardStores) : List (Nat × Nat × Nat) :=
+  (st.rewards.foldl countGrant { emptyReward with campaigns := st.campaigns }).grantStats
+
+def rewardInv (st : RewardStores) : Bool :=
+  sortedB (fun (x : Nat × Nat) => [x.1]) st.promoters && sortedB (fun (x : Nat × Nat) => [x.1]) st.byAddress &&
+  sortedB (fun (c : Campaign) => [c.uid]) st.campaigns && sortedB (fun (r : Reward) => [r.uid]) st.rewards &&
+  sortedB ByCat.key st.byCategory && sortedB (fun (x : Nat × Nat) => [x.1, x.2]) st.byCampaign &&
+  -- the by-category index is filed under the promoter of the reward's campaign
+  st.byCategory.all (fun x => promoterOfReward st x.uid == some x.promoterUid) &&
+  -- one grant was counted for every reward of a capped campaign
+  st.grantStats == rebuiltStats st
 
 end Sge.Genesis
